@@ -202,6 +202,22 @@ def discharge(S, ob, leaf_types=None, invariants=None):
                         truth = relational_cmp(S, pc, atom, leaf_types, invariants)
                     if truth is None or truth != pol:
                         allok = False
+                elif atom[0] == "overflow" and not pol and atom[1] in ("Add", "Sub", "Mul"):
+                    # `checked_op(a, b).unwrap()`: the exact result stays inside the type for all operand ranges
+                    ra, rb = iv.range(atom[2]), iv.range(atom[3])
+                    tr = INT_RANGES.get(atom[4])
+                    if tr is None:
+                        allok = False
+                    else:
+                        if atom[1] == "Add":
+                            lo, hi = ra[0] + rb[0], ra[1] + rb[1]
+                        elif atom[1] == "Sub":
+                            lo, hi = ra[0] - rb[1], ra[1] - rb[0]
+                        else:
+                            prods = [x * y for x in ra for y in rb]
+                            lo, hi = min(prods), max(prods)
+                        if not (tr[0] <= lo and hi <= tr[1]):
+                            allok = False
                 else:
                     allok = False
             if allok:
